@@ -48,13 +48,17 @@
 (*   DescPlatStrict  FALSE = as found: an unparsable --desc-platform is    *)
 (*                   swallowed and the entry is added without platform     *)
 (*                   (finding X03-1); TRUE = rejected like --platform      *)
+(*   PlatLookupStrict FALSE = as found: when the config of an image cannot *)
+(*                   be read (ReadFaults) the entry is added without       *)
+(*                   platform and the command succeeds (finding X03-2);    *)
+(*                   TRUE = the command fails                              *)
 (*   PutFirst        TRUE: the index is pushed before the copies           *)
 (*   DedupByDigest   TRUE: duplicates are recognised by digest alone       *)
 (*   DeleteKeepsOne  TRUE: delete stops after the first match              *)
 (***************************************************************************)
 EXTENDS IndexEditWorld
 
-CONSTANTS DescPlatStrict, PutFirst, DedupByDigest, DeleteKeepsOne, Faults
+CONSTANTS DescPlatStrict, PlatLookupStrict, PutFirst, DedupByDigest, DeleteKeepsOne, Faults, ReadFaults
 
 VARIABLES tkind,    \* "reg" | "dir": registry or OCI layout target
           same,     \* the target repository is source repository S1
@@ -64,8 +68,9 @@ VARIABLES tkind,    \* "reg" | "dir": registry or OCI layout target
           tag,      \* [k |-> "none"] | [k |-> "pool", id |-> m] | [k |-> "idx", v |-> index value]
           xt,       \* subjects whose digest tag (sha256-<subject>.sig) is in the target
           roots,    \* manifests a layout lists without a tag, referrers recorded in fallback tags
-          pc, cmd, cur, ri, tops, plan, ptags, acc, newv, out
-vars == <<tkind, same, sfb, tman, tidx, tag, xt, roots, pc, cmd, cur, ri, tops, plan, ptags, acc, newv, out>>
+          pc, cmd, cur, ri, tops, plan, ptags, acc, newv, out,
+          rf        \* the environment refused a request of the running command
+vars == <<tkind, same, sfb, tman, tidx, tag, xt, roots, pc, cmd, cur, ri, tops, plan, ptags, acc, newv, out, rf>>
 env == <<tkind, same, sfb>>
 repo == <<tman, tidx, tag, xt, roots>>
 
@@ -76,7 +81,7 @@ Cmd(op, refs, plats, digs, dann, dplat, mt, ann, at, subj, bydig, dtags, rfr) ==
 
 ----------------------------------------------------------------------------
 (* helpers mirroring the code *)
-Remove(s, i) == SubSeq(s, 1, i - 1) \o SubSeq(s, i + 1, Len(s))
+Cut(s, i) == SubSeq(s, 1, i - 1) \o SubSeq(s, i + 1, Len(s))
 
 \* descriptor.Descriptor.Equal (types/descriptor/descriptor.go): digest, size, media type,
 \* artifactType, platform (both nil or platform.Match), urls, annotations; `data` is not compared
@@ -89,7 +94,7 @@ Equal(a, b) ==
 
 \* indexDescListRmDup: for i from the front, j from the back down to i+1, delete dl[j] when equal
 RECURSIVE RmDupJ(_, _, _), RmDupI(_, _)
-RmDupJ(dl, i, j) == IF j <= i THEN dl ELSE RmDupJ(IF Equal(dl[i], dl[j]) THEN Remove(dl, j) ELSE dl, i, j - 1)
+RmDupJ(dl, i, j) == IF j <= i THEN dl ELSE RmDupJ(IF Equal(dl[i], dl[j]) THEN Cut(dl, j) ELSE dl, i, j - 1)
 RmDupI(dl, i) == IF i >= Len(dl) THEN dl ELSE RmDupI(RmDupJ(dl, i, Len(dl)), i + 1)
 RmDup(dl) == RmDupI(dl, 1)
 
@@ -97,7 +102,7 @@ RmDup(dl) == RmDupI(dl, 1)
 RECURSIVE DelWalk(_, _, _, _)
 DelWalk(dl, hit(_), i, done) ==
   IF i < 1 THEN dl
-  ELSE IF hit(dl[i]) /\ ~(DeleteKeepsOne /\ done) THEN DelWalk(Remove(dl, i), hit, i - 1, TRUE)
+  ELSE IF hit(dl[i]) /\ ~(DeleteKeepsOne /\ done) THEN DelWalk(Cut(dl, i), hit, i - 1, TRUE)
   ELSE DelWalk(dl, hit, i - 1, done)
 RECURSIVE DelDigs(_, _), DelPlats(_, _)
 DelDigs(dl, ds) == IF ds = <<>> THEN dl ELSE DelDigs(DelWalk(dl, LAMBDA e : e.id = Head(ds), Len(dl), FALSE), Tail(ds))
@@ -114,6 +119,7 @@ PickEntries(es, ps) ==
         THEN <<Head(es).id>> ELSE <<>>) \o PickEntries(Tail(es), ps)
 
 SrcRepoOf(r) == Ref[r].repo
+Resolve(r) == Ref[r].man
 InTarget(id) == id \in tman
 \* imageCopyOpt: the manifests one ImageCopy of n from repository R visits (HEAD on the target first:
 \* present and no flag -> nothing to do; the source manifest is fetched - and its children visited -
@@ -137,61 +143,63 @@ Init ==
        /\ roots = InitExtra[i] \cup (IF same THEN SrcHolds("S1") ELSE {})
   /\ xt = (IF same THEN DOMAIN SrcDigestTag["S1"] ELSE {})
   /\ pc = "idle" /\ cmd = None /\ cur = None /\ ri = 0 /\ tops = <<>> /\ plan = {} /\ ptags = {}
-  /\ acc = <<>> /\ newv = None /\ out = ""
+  /\ acc = <<>> /\ newv = None /\ out = "" /\ rf = FALSE
 
 Goto(p) == pc' = p
-Abort(why) == /\ pc' = "close" /\ out' = "fail:" \o why
-              /\ UNCHANGED <<env, repo, cmd, cur, ri, tops, plan, ptags, acc, newv>>
+AbortR(why, r) == /\ pc' = "close" /\ out' = "fail:" \o why /\ rf' = r
+                  /\ UNCHANGED <<env, repo, cmd, cur, ri, tops, plan, ptags, acc, newv>>
+Abort(why) == AbortR(why, rf)
 
 Begin(c) ==
   /\ pc = "idle"
   /\ cmd' = c /\ cur' = None /\ ri' = 1 /\ tops' = <<>> /\ plan' = {} /\ ptags' = {} /\ acc' = <<>> /\ newv' = None
-  /\ out' = ""
+  /\ out' = "" /\ rf' = FALSE
   /\ Goto(IF c.op = "create" THEN "type" ELSE "load")
   /\ UNCHANGED <<env, repo>>
 
 CheckType ==
   /\ pc = "type"
   /\ IF cmd.mt \notin {"oci", "docker"} THEN Abort("media-type")
-     ELSE Goto("plats") /\ UNCHANGED <<env, repo, cmd, cur, ri, tops, plan, ptags, acc, newv, out>>
+     ELSE Goto("plats") /\ UNCHANGED <<env, rf, repo, cmd, cur, ri, tops, plan, ptags, acc, newv, out>>
 
 Load ==
   /\ pc = "load"
   /\ IF tag.k # "idx" THEN Abort("no-index")
      ELSE /\ cur' = tag.v
           /\ Goto(IF cmd.op = "add" THEN "plats" ELSE "merge")
-          /\ UNCHANGED <<env, repo, cmd, ri, tops, plan, ptags, acc, newv, out>>
+          /\ UNCHANGED <<env, rf, repo, cmd, ri, tops, plan, ptags, acc, newv, out>>
 
 ParsePlats ==
   /\ pc = "plats"
   /\ IF \E i \in DOMAIN cmd.plats : PlatBad(cmd.plats[i]) THEN Abort("platform")
-     ELSE Goto(IF PutFirst THEN "heads" ELSE "refs") /\ UNCHANGED <<env, repo, cmd, cur, ri, tops, plan, ptags, acc, newv, out>>
+     ELSE IF DescPlatStrict /\ cmd.dplat # "" /\ PlatBad(cmd.dplat) THEN Abort("desc-platform")
+     ELSE Goto(IF PutFirst THEN "heads" ELSE "refs") /\ UNCHANGED <<env, rf, repo, cmd, cur, ri, tops, plan, ptags, acc, newv, out>>
 
 \* one --ref: head it, decide what it names
 RefHead ==
   /\ pc = "refs" /\ tops = <<>> /\ plan = {}
   /\ IF ri > Len(cmd.refs)
      THEN Goto(IF PutFirst THEN "close" ELSE "heads") /\ out' = (IF PutFirst THEN "ok" ELSE out)
-          /\ UNCHANGED <<env, repo, cmd, cur, ri, tops, plan, ptags, acc, newv>>
-     ELSE LET m == Ref[cmd.refs[ri]].man IN
+          /\ UNCHANGED <<env, rf, repo, cmd, cur, ri, tops, plan, ptags, acc, newv>>
+     ELSE LET m == Resolve(cmd.refs[ri]) IN
           IF m = None THEN Abort("source")
           ELSE /\ tops' = (IF ~IsList(m) \/ cmd.plats = <<>> THEN <<m>> ELSE PickEntries(Man[m].ents, cmd.plats))
                /\ ri' = ri + 1
                /\ pc' = "copy"
-               /\ UNCHANGED <<env, repo, cmd, cur, plan, ptags, acc, newv, out>>
+               /\ UNCHANGED <<env, rf, repo, cmd, cur, plan, ptags, acc, newv, out>>
 
 \* rc.ImageCopy of the next named manifest starts: HEADs decide what has to be written
 CopyBegin ==
   /\ pc = "copy" /\ plan = {} /\ ptags = {}
-  /\ IF tops = <<>> THEN Goto("refs") /\ UNCHANGED <<env, repo, cmd, cur, ri, tops, plan, ptags, acc, newv, out>>
+  /\ IF tops = <<>> THEN Goto("refs") /\ UNCHANGED <<env, rf, repo, cmd, cur, ri, tops, plan, ptags, acc, newv, out>>
      ELSE LET R == SrcRepoOf(cmd.refs[ri - 1])
               v == Visit(Head(tops), R) IN
           /\ plan' = v \ tman
           /\ ptags' = (IF cmd.dtags THEN {n \in v : DigestTagged(R, n) # {}} ELSE {}) \ xt
           /\ pc' = "copying"
-          /\ UNCHANGED <<env, repo, cmd, cur, ri, tops, acc, newv, out>>
+          /\ UNCHANGED <<env, rf, repo, cmd, cur, ri, tops, acc, newv, out>>
 
-Refuse == Faults /\ Abort("refused")
+Refuse == Faults /\ AbortR("refused", TRUE)
 
 \* one manifest (with its blobs) is written; children before parents
 CopyStep ==
@@ -201,14 +209,14 @@ CopyStep ==
        /\ IF n \notin SrcHolds(SrcRepoOf(cmd.refs[ri - 1])) THEN Abort("copy")
           ELSE /\ tman' = tman \cup {n} /\ plan' = plan \ {n}
                /\ roots' = (IF Man[n].subj # "" THEN roots \cup {n} ELSE roots)
-               /\ UNCHANGED <<env, tidx, tag, xt, pc, cmd, cur, ri, tops, ptags, acc, newv, out>>
+               /\ UNCHANGED <<env, rf, tidx, tag, xt, pc, cmd, cur, ri, tops, ptags, acc, newv, out>>
 
 CopyEnd ==
   /\ pc = "copying" /\ plan = {}
   /\ xt' = xt \cup ptags /\ ptags' = {}
   /\ acc' = Append(acc, Head(tops)) /\ tops' = Tail(tops)
   /\ pc' = "copy"
-  /\ UNCHANGED <<env, tman, tidx, tag, roots, cmd, cur, ri, plan, newv, out>>
+  /\ UNCHANGED <<env, rf, tman, tidx, tag, roots, cmd, cur, ri, plan, newv, out>>
 
 \* second loop of indexBuildDescList: every digest must be in the target repository
 DescOf(id) ==
@@ -218,14 +226,19 @@ DescOf(id) ==
 Heads ==
   /\ pc = "heads"
   /\ LET ds == IF PutFirst
-               THEN cmd.digs \o [i \in DOMAIN cmd.refs |-> Ref[cmd.refs[i]].man]      \* variant: names taken from the source
+               THEN cmd.digs \o [i \in DOMAIN cmd.refs |-> Resolve(cmd.refs[i])]      \* variant: names taken from the source
                ELSE cmd.digs \o acc IN
      IF ~PutFirst /\ \E i \in DOMAIN ds : ~InTarget(ds[i]) THEN Abort("digest")
      ELSE IF PutFirst /\ \E i \in DOMAIN ds : ds[i] = None THEN Abort("source")
-     ELSE IF DescPlatStrict /\ cmd.dplat # "" /\ PlatBad(cmd.dplat) THEN Abort("desc-platform")
-     ELSE /\ newv' = [i \in DOMAIN ds |-> DescOf(ds[i])]
-          /\ Goto("merge")
-          /\ UNCHANGED <<env, repo, cmd, cur, ri, tops, plan, ptags, acc, out>>
+     ELSE \* indexGetPlatform reads the config of every image: the environment may refuse one such read; as
+          \* found the error is swallowed and the entry gets no platform (finding X03-2)
+          \E lost \in {{}} \cup (IF Faults /\ ReadFaults /\ cmd.dplat = ""
+                                THEN {{i} : i \in {j \in DOMAIN ds : ~IsList(ds[j])}} ELSE {}) :
+            IF lost # {} /\ PlatLookupStrict THEN AbortR("refused", TRUE)
+            ELSE /\ newv' = [i \in DOMAIN ds |-> IF i \in lost THEN [DescOf(ds[i]) EXCEPT !.plat = ""] ELSE DescOf(ds[i])]
+                 /\ rf' = (rf \/ lost # {})
+                 /\ Goto("merge")
+                 /\ UNCHANGED <<env, repo, cmd, cur, ri, tops, plan, ptags, acc, out>>
 
 SubjectOk == cmd.subj = "" \/ cmd.mt # "oci" \/ InTarget(cmd.subj) \/ (cmd.subj = "v1" /\ tag.k # "none")
 SubjectVal == IF cmd.subj # "v1" THEN cmd.subj ELSE IF tag.k = "pool" THEN tag.id ELSE "self"
@@ -235,14 +248,14 @@ Merge ==
             IF ~SubjectOk THEN Abort("subject")
             ELSE /\ newv' = (IF cmd.mt = "oci" THEN IV("ocii", RmDup(newv), AnnStr(cmd.ann), cmd.at, SubjectVal)
                              ELSE IV("dkl", RmDup(newv), AnnStr(cmd.ann), "", ""))
-                 /\ Goto("put") /\ UNCHANGED <<env, repo, cmd, cur, ri, tops, plan, ptags, acc, out>>
+                 /\ Goto("put") /\ UNCHANGED <<env, rf, repo, cmd, cur, ri, tops, plan, ptags, acc, out>>
        [] cmd.op = "add" ->
             /\ newv' = [cur EXCEPT !.ents = RmDup(cur.ents \o newv)]
-            /\ Goto("put") /\ UNCHANGED <<env, repo, cmd, cur, ri, tops, plan, ptags, acc, out>>
+            /\ Goto("put") /\ UNCHANGED <<env, rf, repo, cmd, cur, ri, tops, plan, ptags, acc, out>>
        [] cmd.op = "delete" ->
             IF \E i \in DOMAIN cmd.plats : PlatBad(cmd.plats[i]) THEN Abort("platform")
             ELSE /\ newv' = [cur EXCEPT !.ents = DelPlats(DelDigs(cur.ents, cmd.digs), cmd.plats)]
-                 /\ Goto("put") /\ UNCHANGED <<env, repo, cmd, cur, ri, tops, plan, ptags, acc, out>>
+                 /\ Goto("put") /\ UNCHANGED <<env, rf, repo, cmd, cur, ri, tops, plan, ptags, acc, out>>
 
 Put ==
   /\ pc = "put"
@@ -250,7 +263,10 @@ Put ==
   /\ tag' = (IF cmd.op = "create" /\ cmd.bydig THEN tag ELSE [k |-> "idx", v |-> newv])
   /\ IF PutFirst /\ cmd.op # "delete" THEN pc' = "refs" /\ out' = out
      ELSE pc' = "close" /\ out' = "ok"
-  /\ UNCHANGED <<env, tman, xt, roots, cmd, cur, ri, tops, plan, ptags, acc, newv>>
+  \* an index pushed by digest is listed in a layout's index.json, one with a subject is recorded in the
+  \* referrers fallback tag of the subject: what it names stays reachable
+  /\ roots' = (IF cmd.op = "create" /\ (cmd.bydig \/ (cmd.mt = "oci" /\ cmd.subj # "")) THEN roots \cup ({newv.ents[i].id : i \in DOMAIN newv.ents} \cap Ids) ELSE roots)
+  /\ UNCHANGED <<env, rf, tman, xt, cmd, cur, ri, tops, plan, ptags, acc, newv>>
 
 \* deferred rc.Close: an OCI layout collects what no tag, untagged index.json entry or recorded
 \* referrer reaches
@@ -261,9 +277,9 @@ Keep == UNION {Reach(x) : x \in (roots \cup TagTargets \cup
                                  UNION {DigestTagged(R, s) : R \in Repos, s \in xt})}
 Close ==
   /\ pc = "close"
-  /\ tman' = (IF tkind = "dir" /\ ~same THEN tman \cap Keep ELSE tman)
+  /\ tman' = (IF tkind = "dir" THEN tman \cap Keep ELSE tman)
   /\ pc' = "idle"
-  /\ UNCHANGED <<env, tidx, tag, xt, roots, cmd, cur, ri, tops, plan, ptags, acc, newv, out>>
+  /\ UNCHANGED <<env, rf, tidx, tag, xt, roots, cmd, cur, ri, tops, plan, ptags, acc, newv, out>>
 
 Step ==
   \/ CheckType \/ Load \/ ParsePlats \/ RefHead \/ CopyBegin \/ CopyStep \/ CopyEnd \/ Heads \/ Merge \/ Put \/ Close
